@@ -46,6 +46,8 @@ def run(tier, replay=None):
     if replay:
         obj = json.load(open(replay))["case"]
         store, cases = obj.get("store"), obj.get("cases", [])
+        if str(obj.get("leg", "")).startswith("transport"):      # a replay of the transport leg (c05s.run_leg below)
+            store, cases = None, []
     else:
         res = tlc("MC_C05", "MC_C05_quick.cfg", workers=4, timeout=3600, tags=("CASE", "STORE"), out_name="c05_tamper")
         ck.add_tlc(res)
@@ -180,4 +182,6 @@ def run(tier, replay=None):
                        "TickReceipt / WorldlineState have no public constructors: tampered receipts / checkpoint states are real ones taken from another tick, worldline or twin store",
                        "recorded outputs are synthesized on the entries (rules cannot emit to the bus)", "BLAKE3 collision-freeness",
                        "suffix import uses a provenance-backed admission context (local shell digest = derive_witnessed_suffix_shell_digest)"]
+    import c05s                                  # transport leg: suffix bundles and BTRs (spec/SuffixTransport.tla)
+    c05s.run_leg(ck, binp, tier, replay)
     return ck.finish()
